@@ -239,7 +239,7 @@ pub fn all_access() -> Vec<Access> {
 }
 
 /// Part (a) over every storage kind: single handles.
-fn kind_access<T: Tok>() -> Vec<(String, Vec<&'static str>, Vec<&'static str>, Vec<u8>)> {
+fn kind_access<T: Tok>() -> Vec<(String, Vec<&'static str>, Vec<&'static str>, Vec<u8>, Option<String>)> {
     let mut out = vec![];
     for write in [false, true] {
         let mut w = World::new();
@@ -269,13 +269,63 @@ fn kind_access<T: Tok>() -> Vec<(String, Vec<&'static str>, Vec<&'static str>, V
             }
             vec![one::<EntitiesRes>(w), one::<MaskedStorage<T>>(w), one::<LazyUpdate>(w), one::<MetaTable<dyn AnyStorage>>(w)]
         };
+        let mut lifecycle: Option<String> = None;
+        let mut poisoned = false;
         let actual = if write {
-            let _d: WriteStorage<T> = SystemData::fetch(&w);
-            state(&w)
+            let d: WriteStorage<T> = SystemData::fetch(&w);
+            let a = state(&w);
+            drop(d);
+            let after = state(&w);
+            if after.iter().any(|x| *x != 0) {
+                lifecycle = Some(format!("after the handle was dropped the borrow state is {:?}, expected nothing borrowed", after));
+            }
+            a
         } else {
-            let _d: ReadStorage<T> = SystemData::fetch(&w);
-            state(&w)
+            // what the handle borrows it also gives back: through copies of the handle, in either drop order
+            crate::util::crash_note(&format!("{{\"engine\":\"mc-disp\",\"property\":\"C11\",\"part\":\"a\",\"oracle\":\"process crash while fetching ReadStorage<{}>, copying the handle and dropping both (what a handle borrows it must give back exactly once)\"}}", T::NAME));
+            let wr = &w;
+            let r = catch(move || {
+            let w = wr;
+            let mut lifecycle: Option<String> = None;
+            let d: ReadStorage<T> = SystemData::fetch(w);
+            let a = state(&w);
+            for clone_outlives in [false, true] {
+                let d2: ReadStorage<T> = SystemData::fetch(&w);
+                let c = d2.clone();
+                let with_clone = state(&w);
+                let (first, second) = if clone_outlives { (d2, c) } else { (c, d2) };
+                drop(first);
+                let one_left = state(&w);
+                drop(second);
+                if with_clone != a || one_left != a {
+                    lifecycle = Some(format!("a copy of the handle changes the borrow state: {:?} with the copy, {:?} with one of the two dropped (copy outlives: {}), expected {:?} throughout", with_clone, one_left, clone_outlives, a));
+                }
+            }
+            drop(d);
+            let after = state(w);
+            if after.iter().any(|x| *x != 0) && lifecycle.is_none() {
+                lifecycle = Some(format!("after the handle and its copies were dropped the borrow state is {:?}, expected nothing borrowed", after));
+            }
+            (a, lifecycle)
+            });
+            match r {
+                Ok((a, l)) => {
+                    lifecycle = l;
+                    a
+                }
+                Err(m) => {
+                    lifecycle = Some(format!("fetching, copying and dropping read handles panicked: {}", m));
+                    poisoned = true;
+                    vec![9; 4]
+                }
+            }
         };
+        if poisoned {
+            // the borrow counters are corrupt: dropping the world would panic again
+            std::mem::forget(w);
+            out.push((format!("ReadStorage<{}>", T::NAME), vec![], vec![], vec![9; 4], lifecycle));
+            continue;
+        }
         let ids = [ResourceId::new::<EntitiesRes>(), ResourceId::new::<MaskedStorage<T>>(), ResourceId::new::<LazyUpdate>(), ResourceId::new::<MetaTable<dyn AnyStorage>>()];
         let names = ["EntitiesRes", "Storage<T>", "LazyUpdate", "MetaTable"];
         let r: Vec<&'static str> = ids.iter().zip(names).filter(|(i, _)| reads.contains(i)).map(|(_, n)| n).collect();
@@ -286,7 +336,7 @@ fn kind_access<T: Tok>() -> Vec<(String, Vec<&'static str>, Vec<&'static str>, V
             r2.push("<undeclared resource>");
             w2.push("<undeclared resource>");
         }
-        out.push((format!("{}<{}>", if write { "WriteStorage" } else { "ReadStorage" }, T::NAME), r2, w2, actual));
+        out.push((format!("{}<{}>", if write { "WriteStorage" } else { "ReadStorage" }, T::NAME), r2, w2, actual, lifecycle));
     }
     out
 }
@@ -898,7 +948,7 @@ fn kinds_part_a() -> Vec<PartA> {
     macro_rules! k {
         ($($t:ty),*) => {
             $(
-                for (name, r, w, actual) in kind_access::<$t>() {
+                for (name, r, w, actual, lifecycle) in kind_access::<$t>() {
                     // expected from the declaration
                     let names = ["EntitiesRes", "Storage<T>", "LazyUpdate", "MetaTable"];
                     let mut declared = vec![0u8; 4];
@@ -908,7 +958,7 @@ fn kinds_part_a() -> Vec<PartA> {
                     let extra = r.contains(&"<undeclared resource>");
                     let bad = if declared != actual || extra {
                         Some(format!("declared-vs-borrowed: {} declares reads {:?} writes {:?} but fetch() leaves the borrow state {:?} (order {:?}; 1 shared, 2 exclusive)", name, r, w, actual, names))
-                    } else { None };
+                    } else { lifecycle.map(|l| format!("declared-vs-borrowed: {}: {}", name, l)) };
                     out.push((name, r, w, bad));
                 }
             )*
